@@ -36,7 +36,8 @@ index it holds only because the repaired `_insert_forward` empties the set it re
 
 The text index (lexicon, dict- and `IFBTree`-valued postings, `DICT_CUTOFF` switch) has the same
 theorems in `Properties/C19Text.lean` and `Properties/C19TextFull.lean`.
-Not covered by a theorem: the facet index (own `index_doc`; object model and runtime check only).
+The facet index (own `index_doc`, inherited `unindex_doc`; no replacement step) has the same theorems in
+`Properties/C19Facet.lean`.
 -/
 set_option linter.unusedSectionVars false
 namespace Hyp.CIdx
